@@ -171,7 +171,10 @@ pub fn value_alphabet() -> Vec<(&'static str, Value)> {
     "[1, \"a\"]",
     "[null]",
     "[1, null]",
+    "[null, 1]",
     "[null, \"a\"]",
+    "[[], [1, 2]]",
+    "[{a: 1, b: 2}, {a: 1}]",
     "[[1, null]]",
     "{a: [null, 2]}",
     "{a: [1, \"a\"]}",
@@ -376,6 +379,14 @@ pub fn run() {
         run.violation(
           &format!("coercion:{}:{}", shape(target), crate::rval::class_of_value(v)),
           &format!("coercing {} to {} gives {} but should give {}", vt, target.text(), got, expected),
+          case.clone(),
+        );
+      }
+      // the statement as written: a value whose type conforms to the target is returned as it is
+      if v.type_of().is_conformant(&ft) && got.to_string() != v.to_string() {
+        run.violation(
+          &format!("coercion-of-a-value-whose-type-conforms:{}:{}", shape(target), crate::rval::class_of_value(v)),
+          &format!("the type {} of {} conforms to {}, but coercing the value to that type gives {} instead of the value itself", v.type_of(), vt, target.text(), got),
           case.clone(),
         );
       }
